@@ -104,6 +104,10 @@ func (backRR *BackendRR) updateSlowStart() {
 		if backRR.weight >= backRR.weightSS.final {
 			backRR.weight = backRR.weightSS.final
 			backRR.inSlowStart = false
+		} else if backRR.weight < 1 {
+			// final > 0 here: never round a ramping backend down to "not selectable"
+			// (see initSlowStart: avoid no traffic allowed at the beginning of start)
+			backRR.weight = 1
 		}
 	}
 }
